@@ -1,5 +1,6 @@
 SPECIFICATION SpecBucket
 INVARIANT TypeOK RateBound DeadlineExact NoStall ThrottledIffEmpty NoPanic BucketSane Emit
+PROPERTY LimitedCountsWaits
 CHECK_DEADLOCK FALSE
 CONSTANTS
   W = 16
